@@ -10,7 +10,10 @@ NoFL == [present |-> FALSE, s2 |-> <<>>, nk0 |-> 0, nk1 |-> 0, dots |-> <<>>, nd
 Base(nldf) == [sl |-> "npa", nldf |-> nldf, sdmx |-> NoSDMX, fl |-> NoFL]
 N(ver, level, rm, tl, a0ok, l0, l1, dots, js, jp) ==
    [ver |-> ver, level |-> level, rho_mult |-> rm, theta_len |-> tl, a0ok |-> a0ok,
-    l0 |-> l0, l1 |-> l1, dots |-> dots, jspecs |-> js, jplens |-> jp]
+    l0 |-> l0, l1 |-> l1, dots |-> dots, jspecs |-> js, jplens |-> jp, lastzero |-> FALSE]
+\* the same settings with the LAST theta parameter (the tau coefficient of a meta-GGA exponent, the gradient coefficient of a
+\* GGA one) equal to zero: a legal exponent whose recommended normalisers must still cancel the declared powers
+NZ(n) == [n EXCEPT !.lastzero = TRUE]
 \* ---- version i: every spec list / dot pattern within bounds, both levels and rho_mults
 VICfgs(nl0, nl1, ndots) ==
   {Base(N("i", lv, rm, IF lv = "MGGA" THEN 3 ELSE 2, TRUE, l0, l1, d, <<>>, <<>>)) :
@@ -46,7 +49,7 @@ NormN(lv) == {N("j", lv, "expnt", TL(lv), TRUE, <<>>, <<>>, <<>>, <<"se", "se_ar
               N("i", lv, "one", TL(lv), TRUE, <<"se_r2", "se_ap">>, <<"se_grad">>, <<<<0, 0>>, <<-1, 0>>>>, <<>>, <<>>),
               N("i", lv, "expnt", TL(lv), TRUE, <<"se", "se_apr2">>, <<"se_grad", "se_rvec">>, <<<<0, 1>>, <<-1, 1>>>>, <<>>, <<>>)}
 FL1 == [present |-> TRUE, s2 |-> <<-1, 1>>, nk0 |-> 2, nk1 |-> 1, dots |-> <<<<-1, 0>>>>, nd1 |-> 1, ndd |-> 1]
-SLNormCfgs == UNION {{[sl |-> m, nldf |-> n, sdmx |-> NoSDMX, fl |-> f] : n \in NormN(LevelOf(m)), f \in {NoFL, FL1}} : m \in {"nst", "npa", "ns", "np"}}
+SLNormCfgs == UNION {{[sl |-> m, nldf |-> n, sdmx |-> NoSDMX, fl |-> f] : n \in NormN(LevelOf(m)) \cup {NZ(x) : x \in NormN(LevelOf(m))}, f \in {NoFL, FL1}} : m \in {"nst", "npa", "ns", "np"}}
               \cup {[sl |-> m, nldf |-> NoNLDF, sdmx |-> NoSDMX, fl |-> FL1] : m \in {"nst", "npa", "ns", "np"}}
 Pows == SeqsUpTo({0, 1, 2}, 3)
 SDMXCfgs ==
